@@ -81,4 +81,29 @@ CHECKS = {
         note=("trusted: deepcopy contract (fresh, same class/name/arity, touches nothing old), allocation model and heap "
               "closure, purity of cond, Valid(t) preconditions; type-map lookups modelled by identity of the key"),
         design='DESIGN.md section 4 (C07)'),
+    'C10': dict(
+        level='exploration',
+        technique='bounded stand-in only: run-time evaluation of the unification contract (independent term-level matcher as oracle) on enumerated (target, pattern, mode) triples; no deductive proof yet',
+        text=("NOT proved. unify_types is run on ~3 million (quick) / ~13 million (thorough) triples built from term-level class "
+              "tables (bounded variables incl. parameterized and variable bounds, repeated variables, out/in/star projections, "
+              "subclass targets for supertype mode; exhaustive to depth 1, related heads to depth 2, plus random families) and "
+              "each non-empty answer is checked against an independent matcher written from the statement (pattern under the "
+              "assignment equals the target / a supertype up to open variables, projection kinds equal, bounds of assigned and "
+              "open positions, one type per variable, exceptions are violations)."),
+        note=("bounded: nothing is claimed beyond the enumerated inputs; one known finding (own class parameter leaks in "
+              "supertype mode) is listed in known_findings.json; two genuine defects were repaired in /repo (fix: commit)"),
+        design='DESIGN.md section 4 (C10)'),
+    'C17': dict(
+        level='proof',
+        technique='deductive site induction: global invariants J1/J2 (no projection / no contravariant projection exists when the switch is set) proved at every WildCardType construction site by symbolic execution of the enclosing real functions in slice mode (unsupported statements havocked) with z3; _get_type_arg_variance proved against its switch contract; bounded scan of generated programs for the remaining clauses',
+        text=("Proved for all inputs: under the hypothesis that J holds of every existing object, each of the 5 construction sites "
+              "of WildCardType in src/ (enumerated from the AST on every run; an uncovered new site is a failed obligation) "
+              "re-establishes J1 (use-site variance disabled => no projection object exists) and J2 (contravariance disabled => "
+              "no contravariant projection), and _get_type_arg_variance returns Invariant / never Contravariant under the "
+              "switches (plus its caller-choice and declared-variance clauses). One site (_to_type_variable_free) genuinely "
+              "violates J1: known finding. The clauses on type-parameter bounds, parameterized functions and declaration-site "
+              "variance (J3-J6) are bounded only."),
+        note=("trusted: site-induction schema, slice-mode havoc (abstractions listed in evidence), immutability of cfg and of the "
+              "Variance constants, copies preserve class and variance; J3-J6 not proved"),
+        design='DESIGN.md section 4 (C17), 2.7'),
 }
